@@ -8,6 +8,20 @@ VERIF = os.path.dirname(os.path.dirname(os.path.abspath(__file__)))
 ALL = [f"C{i:02d}" for i in range(1, 21)]
 
 CHECKS = {
+    "C19": dict(
+        category="fault_enumeration",
+        technique="exhaustive enumeration of option x channel states, all ordered option pairs and a catalogue of faulty configuration files (incl. injected read errors) on the real initialize",
+        text=("For each of the 26 file-loadable options the six channel states {default, CLI v1, file v1, file v2, CLI v1 + "
+              "file v2, CLI v1 + empty file}, all 650 ordered pairs (option A on the command line, option B in the file), "
+              "and every faulty file of the catalogue (10 syntactically/structurally invalid files, every wrong JSON type "
+              "for every option, injected PermissionError, directory in place of the file, explicit --config that does not "
+              "exist) are run through the real initialize. The observation is the effective option vector when indexing "
+              "starts plus a behaviour vector (capabilities, messages, indexed files, hover, completion, signature, "
+              "diagnostics, symbols); refopts relations must hold between the runs and initialization must complete."),
+        note=("Trusted: the refopts relations in vf/checks/c19.py. One value pair per option; store_true options can only "
+              "be switched on from the command line; an unreadable file is simulated by fault injection on open()."),
+        design="DESIGN.md §4 C19",
+    ),
     "C18": dict(
         category="exploration",
         technique="bounded-exhaustive enumeration of the full settings product x channel on look-alike directory trees against a reference file scanner",
